@@ -281,11 +281,11 @@ type ZPtrs struct {
 	PPS   **[]string
 	PSt   *ZInner
 	PB    *[]byte
-	POmit *int64  `json:"pomit,omitempty"`
-	SOmit []int64 `json:"somit,omitempty"`
+	POmit *int64          `json:"pomit,omitempty"`
+	SOmit []int64         `json:"somit,omitempty"`
 	MOmit map[string]bool `json:"momit,omitempty"`
-	StOm  ZInner  `json:"stom,omitempty"`
-	PStOm *ZInner `json:"pstom,omitempty"`
+	StOm  ZInner          `json:"stom,omitempty"`
+	PStOm *ZInner         `json:"pstom,omitempty"`
 	LP    []*int64
 	MP    map[string]*float64
 	PLP   *[]*int64
@@ -443,7 +443,7 @@ type SGLongA int64
 type SGLongB int64
 type SGLongC int64
 type SGLongD int64
-type SGLongU int64 // never registered
+type SGLongU int64  // never registered
 type SGLongNL int64 // registered with a union whose null branch is last
 type SGTagE string  // never registered itself; the UNNAMED types []SGTagE and map[string]SGTagE are
 type SGStrA string
@@ -452,9 +452,9 @@ type SGSliceA []int32
 type SGSliceB []int32
 type SGSliceC []int32
 type SGSliceD []int32
-type SGSliceU []int32 // never registered
-type SGArrReg []int64             // registered with an array schema (C15 only)
-type SGMapReg map[string]string   // registered with a map schema (C15 only)
+type SGSliceU []int32              // never registered
+type SGArrReg []int64              // registered with an array schema (C15 only)
+type SGMapReg map[string]string    // registered with a map schema (C15 only)
 type SGRecReg struct{ X, Y int64 } // registered with a record schema (C15 only)
 
 type ZRegAll struct {
